@@ -4,6 +4,7 @@ use std::io::{self, BufRead, Write};
 
 mod util;
 mod c10;
+mod c12;
 
 fn main() {
     let mode = std::env::args().nth(1).unwrap_or_default();
@@ -40,6 +41,7 @@ fn main() {
 fn dispatch(mode: &str, line: &str) -> String {
     match mode {
         "c10" => c10::run(line),
+        "c12" => c12::run(line),
         _ => format!("bad-mode {mode}"),
     }
 }
